@@ -249,17 +249,10 @@ Definition obj_maps_spec (tm : tmap) (tb : list block) (ix : list index) : list 
   flat_map (fun bl => match zip_map tm (combine bl ix) sempty with
                       | Some m => if iinter (sa m) (sb m) then [] else [m]
                       | None => [] end) tb.
-Lemma obj_maps_true tm tb ix : obj_maps true tm tb ix = Ok (obj_maps_spec tm tb ix).
+Lemma obj_maps_true tm tb ix : obj_maps tm tb ix = Ok (obj_maps_spec tm tb ix).
 Proof. induction tb as [|bl tb IH]; simpl; [reflexivity|].
   destruct (zip_map tm (combine bl ix) sempty) as [m|]; [|exact IH].
   destruct (iinter (sa m) (sb m)); [exact IH|]. rewrite IH. reflexivity. Qed.
-Lemma obj_maps_false tm tb ix L : obj_maps false tm tb ix = Ok L -> L = obj_maps_spec tm tb ix.
-Proof. revert L; induction tb as [|bl tb IH]; intros L; simpl; [intros H; inversion H; reflexivity|].
-  destruct (zip_map tm (combine bl ix) sempty) as [m|]; [|apply IH].
-  destruct (iinter (sa m) (sb m)); [discriminate|].
-  destruct (obj_maps false tm tb ix) as [l|c]; simpl; [|discriminate].
-  intros H; inversion H. rewrite (IH l eq_refl). reflexivity. Qed.
-
 Lemma in_combine_map {A B} (f : A -> B) (l : list A) a b : In (b, a) (combine (map f l) l) -> b = f a.
 Proof. induction l as [|y l IH]; simpl; [tauto|]. intros [H|H]; [inversion H; reflexivity|auto]. Qed.
 Lemma in_combine_of {A B} (f : A -> B) (l : list A) a : In a l -> In (f a, a) (combine (map f l) l).
@@ -349,16 +342,16 @@ Definition RepO (tm : tmap) (o : list index * list block) (L : list smap) : Prop
   Rep (fst o) (Pobj tm (fst o) (snd o)) L.
 Definition wf_objs (objs : list sobj) : Prop := forall ix tb, In (ix, Some tb) objs -> wf_table ix tb.
 
-Lemma obj_maps_ok fx tm tb ix L : obj_maps fx tm tb ix = Ok L -> L = obj_maps_spec tm tb ix.
-Proof. destruct fx; [rewrite obj_maps_true; intros H; inversion H; reflexivity|apply obj_maps_false]. Qed.
+Lemma obj_maps_ok tm tb ix L : obj_maps tm tb ix = Ok L -> L = obj_maps_spec tm tb ix.
+Proof. rewrite obj_maps_true; intros H; inversion H; reflexivity. Qed.
 
-Lemma term_maps_rep fx tm objs : wf_objs objs -> forall o, term_maps fx tm objs = Ok o ->
+Lemma term_maps_rep tm objs : wf_objs objs -> forall o, term_maps tm objs = Ok o ->
   match o with
   | Some ls => Forall2 (RepO tm) (tabled objs) ls
   | None => forall g, ~ P_of tm (tabled objs) g end.
 Proof. induction objs as [|[ix [tb|]] r IH]; intros Hwf o H; simpl in *.
   - inversion H; subst. constructor.
-  - destruct (obj_maps fx tm tb ix) as [L|c] eqn:EL; simpl in H; [|discriminate].
+  - destruct (obj_maps tm tb ix) as [L|c] eqn:EL; simpl in H; [|discriminate].
     apply obj_maps_ok in EL. subst L.
     assert (HR : Rep ix (Pobj tm ix tb) (obj_maps_spec tm tb ix)).
     { apply obj_maps_rep. apply Hwf; left; reflexivity. }
@@ -366,13 +359,13 @@ Proof. induction objs as [|[ix [tb|]] r IH]; intros Hwf o H; simpl in *.
     destruct (obj_maps_spec tm tb ix) as [|m0 L'] eqn:EL.
     + inversion H; subst. intros g Hg.
       destruct (rep_c _ _ _ HR g (Hg ix tb (or_introl eq_refl))) as [m [[] _]].
-    + destruct (term_maps fx tm r) as [o'|c] eqn:Er; simpl in H; [|discriminate].
+    + destruct (term_maps tm r) as [o'|c] eqn:Er; simpl in H; [|discriminate].
       specialize (IH Hwf' o' eq_refl). destruct o' as [ls|]; inversion H; subst.
       * constructor; [exact HR|exact IH].
       * intros g Hg. apply (IH g). intros ix' tb' Hin. apply Hg. right; exact Hin.
   - apply IH; [|exact H]. intros ix' tb' Hin; apply Hwf; right; exact Hin. Qed.
 
-Lemma term_maps_true_ok tm objs : exists o, term_maps true tm objs = Ok o.
+Lemma term_maps_true_ok tm objs : exists o, term_maps tm objs = Ok o.
 Proof. induction objs as [|[ix [tb|]] r [o IH]]; simpl; [eexists; reflexivity| |exists o; exact IH].
   rewrite obj_maps_true; simpl. destruct (obj_maps_spec tm tb ix); [eexists; reflexivity|].
   rewrite IH; simpl. destruct o; eexists; reflexivity. Qed.
@@ -415,7 +408,7 @@ Proof. split.
   - constructor; constructor. Qed.
 
 Lemma combine_maps_rep tm tobjs ls : Forall2 (RepO tm) tobjs ls ->
-  match combine_maps true ls with
+  match combine_maps ls with
   | Some cs => Rep (D_of tobjs) (P_of tm tobjs) cs
   | None => forall g, ~ P_of tm tobjs g end.
 Proof. intros HF. inversion HF as [|o L tobjs' ls' HR HF']; subst; simpl.
@@ -471,7 +464,7 @@ Proof. unfold add_targets. induction miss as [|x miss IH]; intros m y; simpl; [t
 Definition variant (tm : tmap) (tidx : list index) (m : smap) (var : block) : smap :=
   add_zip (combine var (miss_contr tm (missing tidx m))) (add_targets tm (missing tidx m) m).
 Lemma complete_true_eq tm tidx m :
-  complete true tm tidx m = map (variant tm tidx m) (all_blocks (length (miss_contr tm (missing tidx m)))).
+  complete tm tidx m = map (variant tm tidx m) (all_blocks (length (miss_contr tm (missing tidx m)))).
 Proof. unfold complete, variant. destruct (miss_contr tm (missing tidx m)) eqn:E; simpl; reflexivity. Qed.
 
 Lemma missing_In tidx m x : In x (missing tidx m) <-> In x tidx /\ ~ sdom m x.
@@ -531,7 +524,7 @@ Proof. induction 1 as [|a l Ha Hl IH]; intros H1 H2; simpl; [constructor|].
 
 Lemma complete_rep tm tidx D P cs : NoDup tidx -> incl D tidx -> local D P ->
   (forall g, P g -> compat_on tm D g) -> Rep D P cs ->
-  Rep tidx (fun g => P g /\ compat_on tm tidx g) (flat_map (complete true tm tidx) cs).
+  Rep tidx (fun g => P g /\ compat_on tm tidx g) (flat_map (complete tm tidx) cs).
 Proof. intros Hnd Hincl Hloc HPc [S C U].
   (* facts about one variant *)
   assert (Hmc_nd : forall m, NoDup (miss_contr tm (missing tidx m))).
@@ -666,7 +659,7 @@ Proof. intros Hcl. unfold good, P_of, Pobj. split.
   - intros [Hp Hc]. split; [auto|]. intros ix tb Hin. apply tabled_In in Hin. apply (Hp ix tb Hin). Qed.
 
 Lemma rep_final tm objs tidx : wf_objs objs -> NoDup tidx -> idx_closed objs tidx ->
-  exists R, integrate_objs true tm objs tidx = Ok R /\ Rep tidx (good tm objs tidx) R.
+  exists R, integrate_objs tm objs tidx = Ok R /\ Rep tidx (good tm objs tidx) R.
 Proof. intros Hwf Hnd Hcl.
   assert (HDincl : incl (D_of (tabled objs)) tidx).
   { intros x Hx. unfold D_of in Hx. apply in_flat_map in Hx. destruct Hx as [[ix tb] [Hin Hx]].
@@ -688,9 +681,9 @@ Proof. intros Hwf Hnd Hcl.
     + constructor; constructor.
   - rewrite <- Et in *. unfold integrate_objs. rewrite Et. rewrite <- Et.
     destruct (term_maps_true_ok tm objs) as [o Ho]. rewrite Ho. simpl.
-    pose proof (term_maps_rep true tm objs Hwf o Ho) as Hr. destruct o as [ls|].
+    pose proof (term_maps_rep tm objs Hwf o Ho) as Hr. destruct o as [ls|].
     + pose proof (combine_maps_rep tm (tabled objs) ls Hr) as Hc.
-      destruct (combine_maps true ls) as [cs|].
+      destruct (combine_maps ls) as [cs|].
       * eexists; split; [reflexivity|].
         pose proof (complete_rep tm tidx _ _ cs Hnd HDincl (local_P_of tm (tabled objs)) HPc Hc) as Hf.
         eapply rep_ext; [| |exact Hf]; [tauto|]. intros g. symmetry. apply good_P_of; auto.
@@ -715,7 +708,7 @@ Proof. induction l as [|y l IH]; simpl; intros H x Hx; [contradiction|]. inversi
   destruct Hx as [<-|Hx]; auto. Qed.
 
 Theorem integrate_enumerates tm objs tidx : wf_objs objs -> NoDup tidx -> idx_closed objs tidx ->
-  exists R, integrate_objs true tm objs tidx = Ok R /\
+  exists R, integrate_objs tm objs tidx = Ok R /\
     NoDup (map (assign_list tidx) R) /\
     forall a, In a (map (assign_list tidx) R) <->
               exists g, good tm objs tidx g /\ a = map (fun x => Some (g x)) tidx.
@@ -757,95 +750,32 @@ Proof. unfold wf_objs_b. rewrite forallb_forall. intros H ix tb Hin. specialize 
   - intros bl Hbl. rewrite forallb_forall in H2. apply Nat.eqb_eq. apply H2; auto.
   - destruct ix; [discriminate|discriminate]. Qed.
 
-(* ---------- the code as it is, under side conditions ---------- *)
-Lemma term_maps_false_true tm objs o : term_maps false tm objs = Ok o -> term_maps true tm objs = Ok o.
-Proof. revert o; induction objs as [|[ix [tb|]] r IH]; intros o H; simpl in *; [auto| |auto].
-  destruct (obj_maps false tm tb ix) as [L|c] eqn:EL; simpl in H; [|discriminate].
-  apply obj_maps_false in EL. subst L. rewrite obj_maps_true. simpl.
-  destruct (obj_maps_spec tm tb ix); [auto|].
-  destruct (term_maps false tm r) as [o'|c]; simpl in H; [|discriminate].
-  rewrite (IH o' eq_refl). simpl. exact H. Qed.
+(* ---------- integrate_spin never raises; regression examples ---------- *)
+Theorem integrate_total tm objs tidx : exists R, integrate_objs tm objs tidx = Ok R.
+Proof. unfold integrate_objs. destruct tidx as [|x0 t0]; [eexists; reflexivity|].
+  destruct (term_maps_true_ok tm objs) as [o Ho]. rewrite Ho. simpl.
+  destruct o as [ls|]; [|eexists; reflexivity].
+  destruct (combine_maps ls); eexists; reflexivity. Qed.
 
-Definition has_table (objs : list sobj) : Prop := tabled objs <> [].
-Definition contracted_on_table (tm : tmap) (objs : list sobj) (tidx : list index) : Prop :=
-  forall x, In x tidx -> tlookup tm x = None -> In x (D_of (tabled objs)).
-
-Theorem impl_agrees tm objs tidx R : wf_objs objs -> NoDup tidx -> idx_closed objs tidx ->
-  has_table objs -> contracted_on_table tm objs tidx ->
-  integrate_objs false tm objs tidx = Ok R -> integrate_objs true tm objs tidx = Ok R.
-Proof. intros Hwf Hnd Hcl Hht Hct. unfold integrate_objs. destruct tidx as [|x0 t0] eqn:Et; [auto|].
-  rewrite <- Et in *.
-  destruct (term_maps false tm objs) as [o|c] eqn:Eo; simpl; [|discriminate].
-  rewrite (term_maps_false_true tm objs o Eo). simpl.
-  pose proof (term_maps_rep false tm objs Hwf o Eo) as Hr.
-  destruct o as [ls|]; [|auto].
-  assert (Hls : combine_maps false ls = combine_maps true ls).
-  { destruct ls; [|reflexivity]. inversion Hr as [E|]. exfalso. apply Hht. auto. }
-  rewrite Hls. pose proof (combine_maps_rep tm (tabled objs) ls Hr) as Hc.
-  destruct (combine_maps true ls) as [cs|]; [|auto].
-  intros H; inversion H as [HR]. clear H HR. f_equal.
-  assert (Hm : forall m, In m cs -> complete false tm tidx m = complete true tm tidx m).
-  { intros m Hm. destruct (rep_s _ _ _ Hc m Hm) as [Hd _]. unfold complete.
-    destruct (miss_contr tm (missing tidx m)) as [|y l] eqn:E; [reflexivity|].
-    exfalso. assert (Hy : In y (miss_contr tm (missing tidx m))) by (rewrite E; left; auto).
-    apply miss_contr_In in Hy. destruct Hy as [Hy1 Hy2]. apply missing_In in Hy1.
-    apply (proj2 Hy1). apply Hd. apply Hct; tauto. }
-  clear - Hm. symmetry. induction cs as [|m cs IH]; simpl; [reflexivity|].
-  rewrite (Hm m (or_introl eq_refl)), IH; [reflexivity|]. intros; apply Hm; right; auto. Qed.
-
-(* ---------- witnesses outside the side conditions (the three findings) ---------- *)
 Definition w_i := Idx Occ NoSpin 105 0 0.
 Definition w_j := Idx Occ NoSpin 106 0 0.
 Definition w_a := Idx Virt NoSpin 97 0 0.
 
-(* sum_i f_ii : no object with a table; the term is dropped *)
-Theorem impl_refuted_no_table :
-  exists tm objs tidx, wf_objs objs /\ NoDup tidx /\ idx_closed objs tidx /\
-    integrate_objs false tm objs tidx = Ok [] /\ exists g, good tm objs tidx g.
-Proof. exists [], [([w_i; w_i], None)], [w_i].
-  split; [|split; [|split; [|split]]].
-  - intros ix tb [H|[]]; discriminate.
-  - constructor; [simpl; tauto|constructor].
-  - intros ix tb [H|[]]; discriminate.
-  - reflexivity.
-  - exists (fun _ => SA). split; [intros x s _ H; discriminate|intros ix tb [H|[]]; discriminate]. Qed.
-
-(* delta_ij e_a, targets i, j alpha: the two variants are the same (a -> beta) *)
-Theorem impl_refuted_shallow_copy :
-  exists tm objs tidx R, wf_objs objs /\ NoDup tidx /\ idx_closed objs tidx /\ has_table objs /\
-    integrate_objs false tm objs tidx = Ok R /\ ~ NoDup (map (assign_list tidx) R) /\
-    exists g, good tm objs tidx g /\ ~ In (map (fun x => Some (g x)) tidx) (map (assign_list tidx) R).
-Proof. exists [(w_i, SA); (w_j, SA)], [([w_i; w_j], Some delta_blocks); ([w_a], None)], [w_i; w_j; w_a].
-  eexists. split; [|split; [|split; [|split; [|split; [vm_compute; reflexivity|split]]]]].
-  - intros ix tb [H|[H|[]]]; inversion H; subst. repeat split.
-    + repeat constructor; simpl; intuition discriminate.
-    + intros bl [<-|[<-|[]]]; reflexivity.
-    + discriminate.
-  - repeat constructor; simpl; intuition discriminate.
-  - intros ix tb [H|[H|[]]]; inversion H; subst. intros x [<-|[<-|[]]]; simpl; auto.
-  - discriminate.
-  - vm_compute. intros H. inversion H as [|? ? Hn _]; subst. apply Hn. left; reflexivity.
-  - exists (fun _ => SA). split.
-    + split.
-      * intros x s Hx Hl. simpl in Hl.
-        destruct (index_eqb x w_i); [inversion Hl; auto|]. destruct (index_eqb x w_j); [inversion Hl; auto|discriminate].
-      * intros ix tb [H|[H|[]]]; inversion H; subst. left; reflexivity.
-    + vm_compute. intros [H|[H|[]]]; discriminate. Qed.
-
-(* -1/2 V^{ij}_{ij}: the block abba gives i two spins; the code raises *)
-Theorem impl_refuted_repeated_index :
-  exists tm objs tidx c, wf_objs objs /\ NoDup tidx /\ idx_closed objs tidx /\ has_table objs /\
-    contracted_on_table tm objs tidx /\
-    integrate_objs false tm objs tidx = Err c /\ exists g, good tm objs tidx g.
-Proof. exists [], [([w_i; w_j; w_i; w_j], Some eri_blocks)], [w_i; w_j], 1.
-  split; [|split; [|split; [|split; [|split; [|split; [vm_compute; reflexivity|]]]]]].
-  - intros ix tb [H|[]]; inversion H; subst. repeat split.
-    + repeat constructor; simpl; intuition discriminate.
-    + intros bl Hb. simpl in Hb. repeat (destruct Hb as [<-|Hb]; [reflexivity|]). contradiction.
-    + discriminate.
-  - repeat constructor; simpl; intuition discriminate.
-  - intros ix tb [H|[]]; inversion H; subst. intros x Hx. simpl in *. tauto.
-  - discriminate.
-  - intros x Hx _. simpl in *. tauto.
-  - exists (fun _ => SA). split; [intros x s _ H; discriminate|].
-    intros ix tb [H|[]]; inversion H; subst. left; reflexivity. Qed.
+(* the inputs on which the code violated the property before the repairs *)
+(* sum_i f_ii : no object with a table; both spins of i *)
+Theorem regression_no_table :
+  rbind (integrate_objs [] [([w_i; w_i], None)] [w_i]) (fun R => Ok (map (assign_list [w_i]) R)) =
+  Ok [[Some SA]; [Some SB]].
+Proof. vm_compute. reflexivity. Qed.
+(* delta_ij e_a, targets i, j alpha: a gets both spins *)
+Theorem regression_shallow_copy :
+  rbind (integrate_objs [(w_i, SA); (w_j, SA)] [([w_i; w_j], Some delta_blocks); ([w_a], None)] [w_i; w_j; w_a])
+        (fun R => Ok (map (assign_list [w_i; w_j; w_a]) R)) =
+  Ok [[Some SA; Some SA; Some SA]; [Some SA; Some SA; Some SB]].
+Proof. vm_compute. reflexivity. Qed.
+(* -1/2 V^{ij}_{ij}: the blocks abba, baab give i two spins and are skipped *)
+Theorem regression_repeated_index :
+  rbind (integrate_objs [] [([w_i; w_j; w_i; w_j], Some eri_blocks)] [w_i; w_j])
+        (fun R => Ok (map (assign_list [w_i; w_j]) R)) =
+  Ok [[Some SA; Some SA]; [Some SA; Some SB]; [Some SB; Some SA]; [Some SB; Some SB]].
+Proof. vm_compute. reflexivity. Qed.
